@@ -124,10 +124,10 @@ def check_tables(ctx: Ctx) -> None:
             raise AnalysisError(f"{TH}:{name}: {e}") from e
         ok = isinstance(v, RegexConst) and v.pattern == pat and (v.flags & fl) == fl
         ctx.ob("R-ATOMIC-derived", f"{TH}:{name}", ok,
-               "must be built from all four tag families ({% %}, {# #}, {{ }}, <!-- -->) of the atomic pattern table", where(th, th.defs[name].assigns[0]))
+               "must be built from all four tag families ({% %}, {# #}, {{ }}, <!-- -->) of the atomic pattern table", _where_const(ctx, th, name))
     # _is_closing_tag literals = open_delim + " /" for each family
     ict = repo.func(f"{TH}:_is_closing_tag")
-    lits = sorted(c.value for c in ast.walk(ict.node) if isinstance(c, ast.Constant) and isinstance(c.value, str) and c.value.endswith("/"))
+    lits = sorted(_affix_tests(ctx, folder, ict)["startswith"])
     want = sorted(str(r.fields["open_delim"]) + " /" for r in singles)
     ctx.ob("R-ATOMIC-derived", f"{ict.qual} :: closing-tag spellings", lits == want,
            f"a closing tag is `<open delimiter> /...` for each of the four families: expected {want}, found {lits}", where(ict, ict.node))
@@ -143,6 +143,17 @@ def check_tables(ctx: Ctx) -> None:
         ctx.ob("R-ATOMIC-derived", f"{f.qual} :: all four tag families", ok,
                f"the predicate must test every tag family ({sorted(opens) if need_open else ''} {sorted(closes) if need_close else ''}); "
                f"it tests startswith {sorted(got['startswith'])} / endswith {sorted(got['endswith'])}", where(f, f.node))
+
+
+def _where_const(ctx: Ctx, mod, name: str) -> str:
+    """Location of a module constant - where it is defined, also when the module only imports it."""
+    d = mod.defs.get(name)
+    if isinstance(d, ConstInfo) and d.assigns:
+        return where(mod, d.assigns[0])
+    r = ctx.repo.lookup(name, mod, None)
+    if isinstance(r, ConstInfo) and r.assigns:
+        return where(r.module, r.assigns[0])
+    return str(mod.path.name)
 
 
 def _fold_strs(ctx: Ctx, folder: Folder, fi: FuncInfo, e: ast.AST) -> set[str] | None:
